@@ -68,6 +68,10 @@ def lookup(I, d: LazyDictV, key, node=None):
     else:
         e = [key, None, False, None, False]
     d.overlay.append(e)
+    if present:
+        # what is known about EVERY entry of the base holds for this one
+        for kind, fact in list(d.universals):
+            fact(key if kind == "keys" else v if kind == "values" else (key, v))
     return e
 
 
@@ -111,6 +115,7 @@ def clear(I, d):
     d.base_alive = False
     d.m = 0
     d.version += 1
+    d.universals = []
 
 
 def items_seq(I, d, kind, node=None):
